@@ -9,6 +9,7 @@ import (
 	"go/types"
 	"math/big"
 	"path/filepath"
+	"sort"
 	"strconv"
 	"strings"
 )
@@ -120,6 +121,7 @@ func genConsts(root *pkgSrc) {
 	sb.WriteString("namespace Mcp.Gen\n")
 	genSessionFacts(&sb)
 	genHandleGetFacts(root, &sb)
+	genSessionTableFacts(&sb)
 	sb.WriteString("end Mcp.Gen\n")
 	writeIfChanged("SessionFacts.lean", sb.String())
 }
@@ -234,4 +236,68 @@ func genHandleGetFacts(root *pkgSrc, b *strings.Builder) {
 		}
 	}
 	fmt.Fprintf(b, "/-- `handleGet` checks for a disabled session manager before using it. -/\ndef handleGetGuardsNoSessions : Bool := %s\n", leanBool(guards))
+}
+
+// genSessionTableFacts: every method of internal/session.SessionManager that touches the session table `m.sessions`:
+// how many times it acquires the manager's mutex (a check and the act it guards must share ONE critical section —
+// two acquisitions make e.g. concurrent DELETEs of one id both succeed), and whether a writer holds it exclusively.
+func genSessionTableFacts(b *strings.Builder) {
+	sp := loadDir(filepath.Join(*repo, "internal", "session"))
+	type row struct {
+		fn     string
+		locks  int
+		writes bool
+		excl   bool
+	}
+	var rows []row
+	for _, file := range sp.sortedFiles() {
+		for _, d := range sp.files[file].Decls {
+			fd, ok := d.(*ast.FuncDecl)
+			if !ok || fd.Body == nil || fd.Recv == nil {
+				continue
+			}
+			src := sp.text(fd)
+			if !strings.Contains(src, ".sessions") {
+				continue
+			}
+			r := row{fn: funcName(fd)}
+			ast.Inspect(fd.Body, func(n ast.Node) bool {
+				switch x := n.(type) {
+				case *ast.CallExpr:
+					if sel, ok := x.Fun.(*ast.SelectorExpr); ok {
+						recv := sp.text(sel.X)
+						if strings.HasSuffix(recv, ".mu") && !strings.Contains(recv, "session.") {
+							switch sel.Sel.Name {
+							case "Lock":
+								r.locks++
+								r.excl = true
+							case "RLock":
+								r.locks++
+							}
+						}
+					}
+					if id, ok := x.Fun.(*ast.Ident); ok && id.Name == "delete" && len(x.Args) == 2 && strings.HasSuffix(sp.text(x.Args[0]), ".sessions") {
+						r.writes = true
+					}
+				case *ast.AssignStmt:
+					for _, l := range x.Lhs {
+						if ix, ok := l.(*ast.IndexExpr); ok && strings.HasSuffix(sp.text(ix.X), ".sessions") {
+							r.writes = true
+						}
+					}
+				}
+				return true
+			})
+			rows = append(rows, r)
+		}
+	}
+	sort.Slice(rows, func(i, j int) bool { return rows[i].fn < rows[j].fn })
+	b.WriteString("/-- methods touching the session table: (name, acquisitions of the manager mutex, writes the table, takes the exclusive lock) -/\ndef sessionTableOps : List (String × Nat × Bool × Bool) := [")
+	for i, r := range rows {
+		if i > 0 {
+			b.WriteString(", ")
+		}
+		fmt.Fprintf(b, "(%s, %d, %s, %s)", leanStr(r.fn), r.locks, leanBool(r.writes), leanBool(r.excl))
+	}
+	b.WriteString("]\n")
 }
